@@ -62,15 +62,15 @@ FIXED_ASSUME = ["fixed Huffman tables = constants printed natively from the curr
 FIXED_UW = {"decode_symbol": 11, "BitReader.*get": 6, "bit_writer::BitWriter::flush_whole_bytes": 5, "bit_writer::BitWriter::pad": 9}
 FIXED_UW = {"decode_symbol": 11, "BitReader.*get": 6, "bit_writer::BitWriter::flush_whole_bytes": 5, "bit_writer::BitWriter::pad": 9,
             "decode_block": 3, "RefBits.*::bits": 14, "RefBits.*code_bits": 8, "ref_fixed_block": 10, "fixed_rewrite": 10}
-H("k07b_fixed_token_6", "deflate_reader", ["C07", "C03", "C02", "C05"], unwind=7, unwindset=FIXED_UW, timeout=1500, mem_gb=14, needs_gen=True,
+H("k07b_fixed_token_6", "deflate_reader", ["C07", "C03", "C02", "C05"], tier="thorough", unwind=7, unwindset=FIXED_UW, timeout=1500, mem_gb=14, needs_gen=True,
   claim="fixed-Huffman block with one token: token and consumed length equal the RFC 1951 reference decoder's, and parse -> re-serialise reproduces the consumed bytes",
   functions=FIXED_FUNCS, bounds="every fixed-Huffman block holding at most one token then EOB within 6 bytes: all 256 literals, every (length 3..258, distance 1..32768) with every extra-bit pattern, length 258 as 285 and as 284+31, all final padding patterns, both final-flag values",
   outside="blocks with 2 or more tokens (k07b_fixed_rewrite_3)", assumptions=FIXED_ASSUME + ["write_literal/write_reference stubbed to no-ops, window pre-filled with 32768 bytes so every distance is legal (plaintext is checked by k03b_fixed_plain_3)",
               "token-count bound assumed on the RFC reference before the real decoder runs; the real decoder's unwinding assertion discharges it"])
-H("k07b_fixed_rewrite_3", "deflate_reader", ["C07", "C03", "C05"], unwind=7, unwindset=dict(FIXED_UW, decode_block=4), timeout=1200, mem_gb=14, needs_gen=True,
+H("k07b_fixed_rewrite_3", "deflate_reader", ["C07", "C03", "C05"], tier="thorough", unwind=7, unwindset=dict(FIXED_UW, decode_block=4), timeout=1200, mem_gb=14, needs_gen=True,
   kani_args=["-Z", "unstable-options", "--no-memory-safety-checks"],
   claim="as k07b_fixed_token_6 for blocks of <= 2 tokens", functions=FIXED_FUNCS, bounds="every fixed-Huffman block with <= 2 tokens ending within 3 bytes", assumptions=FIXED_ASSUME)
-H("k03b_fixed_plain_3", "deflate_reader", ["C03", "C05"], unwind=7, unwindset=dict(FIXED_UW, decode_block=4, write_reference=120, **{"fixed_rewrite": 125}), timeout=1500, mem_gb=14, needs_gen=True,
+H("k03b_fixed_plain_3", "deflate_reader", ["C03", "C05"], tier="thorough", unwind=7, unwindset=dict(FIXED_UW, decode_block=4, write_reference=120, **{"fixed_rewrite": 125}), timeout=1500, mem_gb=14, needs_gen=True,
   claim="plain_text produced by the real write_literal/write_reference equals the replay of the RFC reference's tokens over the same window",
   functions=FIXED_FUNCS + ["DeflateReader::write_literal", "DeflateReader::write_reference"], bounds="fixed blocks of <= 2 tokens within 3 bytes over a 4-byte window (distances 1..4+produced, lengths up to 114)",
   assumptions=FIXED_ASSUME)
@@ -103,14 +103,15 @@ for w in ("8", "16"):
       claim="read_exp_value(write_exp_encoded(v)) == v, same context slots, channel fully consumed (%s-slot context arrays)" % w,
       functions=CABAC_FUNCS[2:3] + CABAC_FUNCS[4:], bounds="every v < 2^31", assumptions=CABAC_ASSUME)
 for k in ["value", "misprediction"] + ["correction_%d" % i for i in range(10)]:
-    H("k10b_single_" + k, "cabac_codec", ["C10", "C05"], unwind=34, timeout=600,
+    H("k10b_single_" + k, "cabac_codec", ["C10", "C05"], unwind=34, timeout=900, tier="quick" if k in ("value", "misprediction", "correction_0", "correction_3", "correction_9") else "thorough",
       claim="one %s operation, then finish, decodes to itself" % k, functions=CABAC_FUNCS,
       bounds="values v < 2^31 / widths 1..=16 with v < 2^width / both flags; 7 misprediction contexts symbolic; one harness per correction context (10)",
       assumptions=CABAC_ASSUME)
 for a in "012":
     for b in "012":
         for c in "012":
-            H("k10c_p%s%s%s" % (a, b, c), "cabac_codec", ["C10"], unwind=18, timeout=600,
+            H("k10c_p%s%s%s" % (a, b, c), "cabac_codec", ["C10"], unwind=18, timeout=1200, mem_gb=12,
+              tier="quick" if (a + b + c) in ("012", "021", "102", "120", "201", "210", "111", "220", "002") else "thorough",
               claim="every sequence of 3 operations of kinds (%s,%s,%s) [0=value,1=misprediction,2=correction] round-trips, uses identical context slots, leaves the channel and default_count empty" % (a, b, c),
               functions=CABAC_FUNCS, bounds="kinds concrete per harness (27 harnesses = all kind sequences of length 3); values < 64, widths <= 4, misprediction contexts symbolic, correction contexts by position (DistOnly, Len, Len)",
               outside="sequences longer than 3; larger values inside sequences (single ops cover the full range); other context patterns inside sequences", assumptions=CABAC_ASSUME + ["correction contexts concrete at every call site (a symbolic context index produced a non-reproducing CBMC counterexample; DESIGN §C10)"])
@@ -250,7 +251,7 @@ for w in ("h3", "h4"):
 TOKEN_FUNCS = ["TokenPredictor::predict_block", "TokenPredictor::recreate_block", "TokenPredictor::predict_token", "TokenPredictor::repredict_reference",
                "TokenPredictor::commit_token", "HashChainHolderImpl::{match_token_offset, calculate_hops, hop_match, update_hash}", "DictionaryAddPolicy::update_hash",
                "prefix_compare", "encode_difference/decode_difference"]
-TOKEN_UW = dict(HOLDER_UW, **{"predict_block": 5, "recreate_block": 6, "any_tokens": 5, "token_mirror": 5, "same_ops": 50})
+TOKEN_UW = dict(HOLDER_UW, **{"predict_block": 5, "recreate_block": 6, "any_tokens": 5, "token_mirror": 5, "same_ops": 50, "same_dictionary_updates": 18, "ModelChain.*update_hash": 10})
 for nm, lazy, w, tier in (("greedy_h3", False, 3, "quick"), ("lazy_h3", True, 3, "quick"), ("greedy_h4", False, 4, "quick"), ("lazy_h4", True, 4, "quick")):
     H("k02e_token_mirror_" + nm, "token_predictor", ["C02", "C08", "C05"], unwind=6, unwindset=TOKEN_UW, timeout=2400, mem_gb=20, tier=tier,
       claim="recreate_block(predict_block(tokens)) == tokens and the corrections are consumed exactly, or predict_block returns Err; no panic (%s matching rows, %d-byte hash width)" % ("lazy" if lazy else "greedy", w),
@@ -282,14 +283,14 @@ K4("k04c_add_policy_calls", "add_policy_estimator", "DictionaryAddPolicy::update
 K4("k03a_tables", "preflate_constants", "length/distance base and extra tables equal RFC 1951's, quantize_* selects the code whose range contains the value, code-length order equals the RFC's; all equal the reference build's",
    ["quantize_length", "quantize_distance", "LENGTH_/DIST_ BASE/EXTRA tables", "TREE_CODE_ORDER_TABLE"], "all 29/30 codes, all lengths 3..=258, all distances 1..=32768", unwind=3, timeout=600, also=["C03", "C07"])
 K4("k04d_zlib_lengths_3", "huffman_calc", "zlib-style Huffman length calculation returns the reference build's code lengths (tie-breaks included)", ["huffman_calc::calc_zlib::calc_bit_lengths", "pqdownheap"],
-   "3 symbols, frequencies 0..=3, limit 7", unwind=8, timeout=1500, mem_gb=16, outside="more symbols / larger frequencies: a tie-break change that needs > 4 symbols escapes")
+   "3 symbols, frequencies 0..=3, limit 7", unwind=8, timeout=1500, mem_gb=16, outside="more symbols / larger frequencies: a tie-break change that needs > 4 symbols escapes", tier="thorough")
 K4("k04d_zlib_lengths_4", "huffman_calc", "as k04d_zlib_lengths_3 with 4 symbols", ["huffman_calc::calc_zlib::calc_bit_lengths"], "4 symbols, frequencies 0..=3, limit 7", unwind=9, timeout=3000, mem_gb=20, tier="thorough")
 K4("k04e_rle_predictor_equiv", "tree_predictor", "predict_code_type / predict_code_data return the reference build's prediction", ["predict_code_type", "predict_code_data"],
    "every slice of 1..=12 code lengths, with/without previous code, every code type", unwind=14, timeout=900)
 K4("k04e_rle_long_runs", "tree_predictor", "run-length thresholds (3, 6, 10, 11, 138) agree with the reference build on long runs", ["predict_code_type", "predict_code_data"],
    "all-zero and all-equal runs of every length 1..=140 (concrete content, symbolic length)", unwind=142, timeout=1500, mem_gb=12)
 K4("k04e_ld_ops_equiv", "tree_predictor", "calc_tc_lengths_without_trailing_zeros, calc_codetree_freq and the correction sequence of predict_ld_trees equal the reference build's",
-   ["calc_tc_lengths_without_trailing_zeros", "predict_ld_trees", "calc_codetree_freq"], "all 19-entry length vectors; predicted vectors <= 10 with <= 2 RLE items", unwind=21, timeout=1500, mem_gb=14)
+   ["calc_tc_lengths_without_trailing_zeros", "predict_ld_trees", "calc_codetree_freq"], "all 19-entry length vectors; predicted vectors <= 10 with <= 2 RLE items", unwind=21, timeout=1500, mem_gb=14, tier="thorough")
 K4("k04f_param_header_equiv", "preflate_parameter_estimator", "PreflateParameters::write emits the same field sequence (order, widths, values) as the reference build", ["PreflateParameters::write"],
    "every parameter vector in estimator_range with min_len set", unwind=42, timeout=900)
 K4("k04g_nodict_params_equiv", "preflate_parameter_estimator", "the parameter vector estimated for dictionary-free streams (incl. default block size 16386) equals the reference build's",
@@ -318,7 +319,7 @@ H("k05d_info_params", "preflate_parameter_estimator", ["C05", "C02", "C08"], unw
              "PreflateParameters::write", "PreflateParameters::read"],
   bounds="every list of <= 2 blocks (stored / fixed / dynamic) with <= 2 tokens each (literals, references 3..=258 / 1..=32768)",
   assumptions=["estimate_preflate_comp_level and estimate_add_policy replaced by range stubs (results in recommend()'s range, min_len and add_policy passed through): the table-based estimators are out of reach"])
-H("k02h_add_policy_range", "add_policy_estimator", ["C02", "C08", "C05"], unwind=5, unwindset={"estimate_add_policy": 262}, timeout=1800, mem_gb=20,
+H("k02h_add_policy_range", "add_policy_estimator", ["C02", "C08", "C05"], tier="thorough", unwind=5, unwindset={"estimate_add_policy": 262}, timeout=1800, mem_gb=20,
   claim="estimate_add_policy returns limits that fit the parameter header's 8-bit field", functions=["add_policy_estimator::estimate_add_policy"],
   bounds="one block: literal, reference (len 3..=258, dist 1), reference (len 3..=258, any distance into the previous match)", outside="longer token sequences")
 
@@ -328,6 +329,30 @@ H("k05g_chain_position_step", "hash_chain", ["C05"], unwind=4, timeout=1500, mem
   bounds="total_shift in {-8, 0x7df8, 0xfbf8}, every pos satisfying the invariant, every length 1..=258, offset 0|1; one inductive step",
   assumptions=["hash table = arbitrary (nondeterministic) heap object; HashTable::update_chain and HashTable::reshift are no-op stubs (the 64K tables are out of reach)",
                "the consulted head entry is an arbitrary internal position not after the reference position (what update_chain maintains)"])
+
+H("k10d_public_codec_finish", "cabac_codec", ["C10"], unwind=18, timeout=900, mem_gb=14,
+  claim="through the public PredictionEncoderCabac / PredictionDecoderCabac types: after any two operations, finish() always terminates the coder and flushes a pending default; the decoder reads the operations back",
+  functions=["PredictionEncoderCabac::{new, encode_*, finish}", "PredictionDecoderCabac::{new, decode_*}"], bounds="all pairs of operations (3 kinds each), values < 16, widths <= 4", assumptions=CABAC_ASSUME)
+H("k13c_recreate_idat_partial_writes", "idat_parse", ["C13", "C01"], unwind=6, unwindset={"update_cheap": 12, "recreate_idat": 4, "k13c": 36}, timeout=1200, mem_gb=16,
+  claim="recreate_idat writes identical bytes into a destination that accepts one byte per call and into a Vec", functions=["idat_parse::recreate_idat"],
+  bounds="two IDAT chunks (5 + 4 bytes), symbolic payload / header / Adler-32", assumptions=IDAT_ASSUME[1:] + ["FragWrite with one-byte partial writes"])
+
+H("k03f_write_reference", "deflate_reader", ["C03", "C05"], unwind=4, unwindset={"write_reference": 260}, timeout=2400, mem_gb=20,
+  claim="DeflateReader::write_reference implements the RFC 1951 window copy (each new byte equals the byte `dist` back), no out-of-range index",
+  functions=["DeflateReader::write_reference"], bounds="every distance 1..=300 x every length 3..=258 (symbolic) over a 300-byte window with position-dependent content")
+H("k03f_write_reference_far", "deflate_reader", ["C03", "C05"], unwind=4, unwindset={"write_reference": 260}, timeout=2400, mem_gb=20,
+  claim="as k03f_write_reference at the far end of a full window", functions=["DeflateReader::write_reference"],
+  bounds="distances 32768, 32767, 4096 (concrete) x every length 3..=258 (symbolic) over a 32768-byte window", outside="other distances above 300")
+G_UW = {"decode_symbol": 11, "BitReader.*get": 4, "put_bits": 14, "put_code": 10, "k03g": 32, "read_block": 3, "decode_block": 3}
+for nm, tier in (("len_24_28", "quick"), ("dist_24_29", "quick"), ("len_0_7", "thorough"), ("len_8_15", "thorough"), ("len_16_23", "thorough"),
+                 ("dist_0_7", "thorough"), ("dist_8_15", "thorough"), ("dist_16_23", "thorough")):
+    kind, lo, hi = nm.split("_")
+    H("k03g_fixed_reader_" + nm, "deflate_reader", ["C03", "C07", "C05"], unwind=6, unwindset=dict(G_UW, len_codes=10, dist_codes=10), timeout=2400, mem_gb=20, needs_gen=True, tier=tier,
+      claim="the real reader (read_block / decode_block / decode_symbol / BitReader) decodes a fixed-Huffman reference token to RFC 1951's base + extra for %s codes %s..=%s with every extra-bit value, flags 284+31, and consumes exactly the bytes of the block" % ("length" if kind == "len" else "distance", lo, hi),
+      functions=["DeflateReader::read_block", "DeflateReader::decode_block", "huffman_helper::decode_symbol", "BitReader::get", "LENGTH_/DIST_ BASE/EXTRA tables"],
+      bounds="%s codes %s..=%s (concrete, looped) x all extra-bit values (symbolic); the other code fixed to its first entry" % (kind, lo, hi),
+      outside="a long length code together with a long distance code in one token (independent reads)",
+      assumptions=FIXED_ASSUME[:1] + ["write_reference stubbed to a no-op (k03f decides it); bit layout concrete per instance, extra bits symbolic"])
 
 
 def version_gate(dst, verif):
